@@ -142,14 +142,21 @@ Offer == [secs |-> secs, bundle |-> BundleOf(secs, desc.bundle)]
 (* the offer that established the session before a "subsequent" negotiation: same sections with the  *)
 (* full codec menu, everything else as in the offer under test                                      *)
 FullPts(kind) == IF kind = "audio" THEN <<111, 0, 8, 9, 101>> ELSE <<96, 97>>
+RichSecs ==
+  [i \in DOMAIN secs |->
+     IF secs[i].kind \in RtpKinds
+     THEN [secs[i] EXCEPT !.pts = PtsOf(secs[i].kind, FullPts(secs[i].kind)),
+                          !.rtx = RtxOf(secs[i].kind, FullPts(secs[i].kind)),
+                          !.dir = "sendrecv"]
+     ELSE secs[i]]
+(* neg = "subsequent": the same sections were negotiated before with the full codec menu (re-INVITE narrowing   *)
+(* the codecs / changing directions); neg = "grow": the last section is new in this offer (renegotiation that  *)
+(* adds an m= section) - for a single-section offer that is the same as "subsequent".                          *)
 Previous ==
-  [ secs |-> [i \in DOMAIN secs |->
-               IF secs[i].kind \in RtpKinds
-               THEN [secs[i] EXCEPT !.pts = PtsOf(secs[i].kind, FullPts(secs[i].kind)),
-                                    !.rtx = RtxOf(secs[i].kind, FullPts(secs[i].kind)),
-                                    !.dir = "sendrecv"]
-               ELSE secs[i]],
-    bundle |-> BundleOf(secs, desc.bundle) ]
+  LET keep == IF cfg.neg = "grow" /\ Len(secs) >= 2 THEN Len(secs) - 1 ELSE Len(secs)
+      ps   == SubSeq(RichSecs, 1, keep)
+  IN [ secs |-> ps,
+       bundle |-> SelectSeq(BundleOf(secs, desc.bundle), LAMBDA m : \E i \in DOMAIN ps : ps[i].mid = m) ]
 
 OfferRec == [offer |-> Offer, cfg |-> cfg, prev |-> Previous]
 EmitOffer == Done => PrintT(<<"OFFER", ToJson(OfferRec)>>)
